@@ -28,7 +28,11 @@ def step (st : St) (ts : List String) : St × List String :=
         let lb := l == 1
         match st.latest with
         | some l0 => if l0 == lb then ({ st with streams := store st.streams (new ssrc rate lb) }, []) else (st, ["bad-op"])
-        | none => ({ st with latest := some lb, streams := store st.streams (new ssrc rate lb) }, [])
+        | none =>
+          -- the interceptor is created here; `skew`: its configured clock (SenderNow) is that much ahead of the
+          -- harness clock that times the ops (and whose value the ticker channel delivers)
+          ({ st with now := st.now + (getInt fs "skew").getD 0, latest := some lb,
+                     streams := store st.streams (new ssrc rate lb) }, [])
       else (st, ["bad-op"])
     | _, _, _ => (st, ["bad-op"])
   | some "write" =>
@@ -117,7 +121,11 @@ def step (st : St) (ts : List String) : St × List String :=
   match ts.head? with
   | some "cfg" =>
     match getNat fs "interval" with
-    | some iv => if st.first ∧ 0 < iv then ({ st with interval := iv, nextTick := st.now + iv, first := false }, []) else (st, ["bad-op"])
+    | some iv =>
+      -- `skew`: the configured clock (ReceiverNow) is that much ahead of the ticker's; every time of the model
+      -- is the configured clock's, the ticker only decides WHEN (relative to the start) a report is made
+      let now := st.now + (getInt fs "skew").getD 0
+      if st.first ∧ 0 < iv then ({ st with now, interval := iv, nextTick := now + iv, first := false }, []) else (st, ["bad-op"])
     | none => (st, ["bad-op"])
   | some "bind" =>
     match getNat fs "ssrc", getNat fs "rate", getNat fs "dt" with
